@@ -29,6 +29,12 @@ type wgAdd struct {
 	at                    string
 }
 
+// repoWait: a blocking wait of the repository protocol — taking the token (`<-wgBlock`, alone or as a select arm without
+// default) or the collector's / Close's wg.Wait on a wait group that has a token — with the mutexes held at that point
+type repoWait struct {
+	kind, class, held, root, fn, at string
+}
+
 type lockedCall struct {
 	callee              string
 	claimed, held, ctor bool
@@ -73,13 +79,14 @@ type analysis struct {
 	classes     map[string]bool
 	lockedCalls map[lockedCall]bool
 	wgAdds      map[wgAdd]bool
+	repoWaits   map[repoWait]bool
 	tokenTakes  map[[2]string]bool // (function, "true"/"false": the receive is one arm of a select with a ctx.Done() arm)
 	inCtxSelect bool
 }
 
 func newAnalysis() *analysis {
 	return &analysis{edges: map[edge]edgeWit{}, accesses: map[string]access{}, unrecs: map[unrec]bool{}, leaks: map[string]bool{},
-		memo: map[string][]*state{}, active: map[string]bool{}, reached: map[string]bool{}, rootSeen: map[string]bool{}, sites: map[string]string{}, classes: map[string]bool{}, lockedCalls: map[lockedCall]bool{}, tokenTakes: map[[2]string]bool{}, wgAdds: map[wgAdd]bool{}}
+		memo: map[string][]*state{}, active: map[string]bool{}, reached: map[string]bool{}, rootSeen: map[string]bool{}, sites: map[string]string{}, classes: map[string]bool{}, lockedCalls: map[lockedCall]bool{}, tokenTakes: map[[2]string]bool{}, wgAdds: map[wgAdd]bool{}, repoWaits: map[repoWait]bool{}}
 }
 
 func (a *analysis) unrecognised(p token.Pos, what string) { a.unrecs[unrec{pos(p), what}] = true }
@@ -238,6 +245,16 @@ func lifeKey(root string) string {
 		return root
 	}
 	return ""
+}
+
+func (a *analysis) recordWait(fr *frame, st *state, kind, class string, p token.Pos) {
+	held := []heldLock{}
+	for _, h := range st.held {
+		if h.unpub == nil {
+			held = append(held, h)
+		}
+	}
+	a.repoWaits[repoWait{kind, class, strings.Join(mutexOnly(held), ","), fr.c.root, fr.c.f.name, pos(p)}] = true
 }
 
 // ---------------------------------------------------------------- functions
@@ -772,6 +789,9 @@ func (a *analysis) chanOp(fr *frame, st *state, ch ast.Expr, send, blocking bool
 			} else {
 				a.acquire(fr, st, class, p, true)
 				a.tokenTakes[[2]string{fr.c.f.name, fmt.Sprint(a.inCtxSelect && blocking)}] = true
+				if blocking {
+					a.recordWait(fr, st, "token", class, p)
+				}
 			}
 			return
 		}
